@@ -3,6 +3,7 @@ package checks
 import (
 	"context"
 	"fmt"
+	"net/http"
 
 	"verifsim/hx"
 	"verifsim/simkern"
@@ -10,6 +11,7 @@ import (
 	"verifsim/worlds/pipew"
 
 	"github.com/Query-farm/vgi-rpc-go/vgirpc"
+	"github.com/apache/arrow-go/v18/arrow"
 )
 
 // hookEvent is one observed hook callback.
@@ -165,6 +167,8 @@ func C37(e *simkern.Env) {
 		plan[i] = panicRate > 0 && tp.Draw(10) < panicRate
 	}
 	batchLimit := tp.Draw(3)
+	extInputs := tp.Bool(1, 3)
+	e.Knob("external_inputs_on_pipe", extInputs)
 	e.Knob("hook_panic_rate_per_10", panicRate)
 	e.Knob("batch_limit", batchLimit)
 	e.Res.Sample = pipew.Describe(ops)
@@ -183,11 +187,54 @@ func C37(e *simkern.Env) {
 			}
 			return h
 		}
+		// some exchange inputs travel as external-location pointers the server has
+		// to fetch; whether a given input does, and whether its fetch fails, is
+		// fixed per (call, input) so that every replay of the history sees the same
+		store := &faultyStore{sim: sim, objects: map[string][]byte{}, encoding: map[string]string{}, failURL: map[string]string{}}
+		type extPlan struct {
+			ext  bool
+			fail string
+		}
+		extPlans := map[[2]int64]extPlan{}
+		extIn := func(op *pipew.Op, k int, b arrow.RecordBatch) arrow.RecordBatch {
+			if !extInputs || b.NumRows() == 0 || b.NumCols() == 0 {
+				return b
+			}
+			key := [2]int64{op.Script.Nonce, int64(k)}
+			pl, ok := extPlans[key]
+			if !ok {
+				pl = extPlan{ext: tp.Bool(1, 2), fail: []string{"", "", "error", "status", "truncate"}[tp.Draw(5)]}
+				extPlans[key] = pl
+			}
+			if !pl.ext {
+				return b
+			}
+			sim.Fault("external-input-pointer")
+			// (the URL appears in error texts: the same input gets the same URL
+			// in every replay of the history)
+			url := fmt.Sprintf("https://store.sim/in/%d/%d", op.Script.Nonce, k)
+			store.objects[url] = hx.EncodeStream(b.Schema(), b)
+			if pl.fail != "" {
+				store.failURL[url] = pl.fail
+			}
+			ptr := hx.PointerLike(b, hx.M(hx.KLocation, url))
+			b.Release()
+			return ptr
+		}
 		// ---- pipe: once with the planned (panicking) hook, once with a silent one
 		cut := 0
 		runPipe := func(h *planHook) (*pipew.Session, simkern.StopReason, []int) {
 			hx.Rec.Reset()
-			sess := &pipew.Session{Srv: pipew.NewServer(func(s *vgirpc.Server) { s.SetDispatchHook(h) }), Ops: ops, S2CCutAt: cut}
+			sess := &pipew.Session{Srv: pipew.NewServer(func(s *vgirpc.Server) {
+				s.SetDispatchHook(h)
+				if extInputs {
+					cfg := vgirpc.DefaultExternalLocationConfig(store)
+					cfg.HTTPClient = &http.Client{Transport: store}
+					cfg.RetryDelay = 1
+					cfg.ExternalizeThresholdBytes = 1 << 30 // inputs only: outputs stay inline
+					s.SetExternalLocation(cfg)
+				}
+			}), Ops: ops, S2CCutAt: cut, ExtInput: extIn}
 			// record the event index at the start of every call
 			marks := []int{}
 			_ = marks
@@ -363,7 +410,7 @@ func init() {
 		Real:  []string{"vgirpc serveOne hook bracket, HttpServer.startDispatchHook and its deferred end on unary / stream init / exchange / producer continuation / cancel paths"},
 		Stub:  []string{"transports", "protocol client", "recording / panicking DispatchHook", "scripted handlers"},
 		Quick: 700, Thorough: 60000,
-		FaultKinds: []string{"hook-panic-in-start", "hook-panic-in-end", "malformed-request", "client-cancel", "peer-hangup-mid-response"},
+		FaultKinds: []string{"hook-panic-in-start", "hook-panic-in-end", "malformed-request", "client-cancel", "peer-hangup-mid-response", "external-input-pointer", "fetch-error", "fetch-status", "fetch-truncated"},
 		Assumptions: []string{"calls refused before dispatch (malformed, unknown method, version gate, unresolvable tokens) carry no demand other than 'no end without a start'", "when start panicked the statement makes no demand on end"},
 	}
 }
